@@ -139,6 +139,8 @@ func genC16Source() (string, string) {
 	nf := parse("loader/normalize.go")
 	ldf := parse("loader/loader.go")
 	ff := parse("dotenv/format.go")
+	cf := parse("cli/options.go")
+	of := parse("override/merge.go")
 	n := 0
 	for _, e := range []struct {
 		f              *ast.File
@@ -160,6 +162,9 @@ func genC16Source() (string, string) {
 		{nf, "", "resolve", "normalize_resolve"},
 		{ldf, "", "WithDiscardEnvFiles", "WithDiscardEnvFiles"},
 		{ff, "", "ParseWithFormat", "ParseWithFormat"}, {ff, "", "RegisterFormat", "RegisterFormat"},
+		// round 6: the option behind the second call site; how env_file / label_file lists of two layers (override file,
+		// extends base + own entries) are put together
+		{cf, "", "WithoutEnvironmentResolution", "WithoutEnvironmentResolution"}, {of, "", "mergeToSequence", "mergeToSequence"},
 	} {
 		fmt.Fprintf(&b, "def c16_body_%s : String := %s\n", e.as, leanStr(funcBody(e.f, e.recv, e.name)))
 		n++
